@@ -40,6 +40,26 @@ type pnCase struct {
 
 // pnString renders an abstract URL; fam is the link family of the pager (it decides what "base" is).
 func pnString(u pnURL, fam string) string {
+	s := pnPlain(u, fam)
+	if pnEsc {
+		// the folder of the story has a name that is written with an escape: /zq%C3%A9s/
+		s = strings.Replace(s, "/zqs", "/zq%C3%A9s", 1)
+	}
+	return s
+}
+
+// pnEsc: the URLs of this run carry a percent-escape in their first path segment (one run per process at a time).
+var pnEsc = false
+
+// pnUnesc maps the escaped folder name - however it is written - back to the plain one before a URL is read back.
+func pnUnesc(s string) string {
+	for _, f := range []string{"zq%C3%A9s", "zq%c3%a9s", "zq\u00e9s"} {
+		s = strings.Replace(s, f, "zqs", 1)
+	}
+	return s
+}
+
+func pnPlain(u pnURL, fam string) string {
 	switch u.K {
 	case "file":
 		return fmt.Sprintf("https://%s/zqs/view-%d.html", pagerHost, u.Y)
@@ -78,6 +98,7 @@ var (
 )
 
 func pnAbstract(s string) pnURL {
+	s = pnUnesc(s)
 	if s == "" {
 		return pnURL{K: "none"}
 	}
@@ -113,6 +134,7 @@ func pnAbstract(s string) pnURL {
 }
 
 func pnPattern(s string) map[string]interface{} {
+	s = pnUnesc(s)
 	s = strings.ReplaceAll(s, "%5B%2A%21%5D", "[*!]") // the place holder is percent-encoded in query patterns
 	if m := rxPnPatX.FindStringSubmatch(s); m != nil {
 		k, _ := strconv.Atoi(m[1])
@@ -174,9 +196,9 @@ func pnHookEvents(run int, hooks []vtrace.Event) []Event {
 			sign, _ := kv["sign"].(int)
 			evs = append(evs, Event{"ev": "PNGroup", "run": run, "sign": sign, "list": pnPages(kv["list"])})
 		case "PNCand":
-			evs = append(evs, Event{"ev": "PNCand", "run": run, "pat": pnPattern(fmt.Sprint(kv["pattern"])), "result": pnParam(kv["result"])})
+			evs = append(evs, Event{"ev": "PNCand", "run": run, "esc": pnEsc, "pat": pnPattern(fmt.Sprint(kv["pattern"])), "result": pnParam(kv["result"])})
 		case "PNBest":
-			evs = append(evs, Event{"ev": "PNBest", "run": run, "result": pnParam(kv["result"]), "multi": kv["multi"] == true})
+			evs = append(evs, Event{"ev": "PNBest", "run": run, "esc": pnEsc, "result": pnParam(kv["result"]), "multi": kv["multi"] == true})
 		}
 	}
 	return evs
@@ -192,6 +214,7 @@ func runPN(c Case, e *env) []Event {
 	}
 	g := newDocGen(e.seed, c.ID)
 	r := g.rng
+	pnEsc = (c.ID+int(e.seed))%4 == 0
 	fam := p.Doc.K
 	for _, it := range p.Items {
 		switch it.U.K {
